@@ -272,7 +272,8 @@ def make_numpy(interp):
         if len(sh) == 1:
             return A.zeros(sh[0])
         if len(sh) == 2:
-            if not T.is_sym(sh[0]) and sh[0] <= 3:
+            square = T.same(sh[0], sh[1])
+            if not square and not T.is_sym(sh[0]) and sh[0] <= 3:
                 return Sym2D([A.zeros(sh[1]) for _ in range(sh[0])], name="zeros2d")
             return SymMatrix(sh[0], sh[1], lambda r, c: 0, name="zerosM")
         raise EngineError("np.zeros with %d dims" % len(sh))
